@@ -89,6 +89,12 @@ func scenarioC19(x *runner.X) {
 	t := x.Tape
 	engineKnobs(nil)
 	n := t.Range(1, 2)
+	// dense: one epoch in which some account is mentioned by more transactions than any fixed
+	// page size of the address-index reader, all inside one permitted slot range
+	dense := t.Bool(0.08)
+	if dense {
+		n = 1
+	}
 	first := uint64(t.Pick(1, 5, 77))
 	var ws []*builtWorld
 	for i := 0; i < n; i++ {
@@ -96,6 +102,10 @@ func scenarioC19(x *runner.X) {
 		p := world.Params{Epoch: e, Salt: 19, NumBlocks: t.Range(2, 6), MaxEntries: t.Range(1, 3), MaxTxPerEntry: t.Range(1, 3), NumAccounts: t.Pick(6, 8), MaxFrameBytes: t.Pick(200, 80, 1000), SkipProb: 0.5, MaxSkip: t.Pick(2, 6), VoteFrac: 0.35, FailedFrac: 0.3, V0Frac: 0.6, LookupFrac: 0.8}
 		if i == 0 && n == 2 {
 			p.FirstSlotOffset = world.SlotsPerEpoch - 40 // near the end of the epoch
+		}
+		if dense {
+			p.NumBlocks, p.MaxEntries, p.MaxTxPerEntry, p.NumAccounts = t.Range(30, 45), 4, 7, 6
+			p.SkipProb, p.MaxSkip, p.VoteFrac, p.MaxFrameBytes = 0.2, 2, 0.6, 1000
 		}
 		w := world.Generate(tapeRng{t.SubRand()}, p)
 		dir := filepath.Join(x.TempDir(), fmt.Sprintf("epoch-%d", e))
@@ -208,6 +218,25 @@ func scenarioC19(x *runner.X) {
 		}
 		reqs = append(reqs, q)
 		desc += fmt.Sprintf("[%d..%d nofilter=%v vote=%v failed=%v inc=%d exc=%d req=%d] ", q.start, q.end, q.noFilter, q.vote, q.failed, len(q.include), len(q.exclude), len(q.required))
+	}
+	if dense {
+		// the whole epoch, filtered by the most mentioned account
+		best := accounts[0]
+		for _, a := range accounts {
+			if len(ws[0].w.ByAddress[a]) > len(ws[0].w.ByAddress[best]) {
+				best = a
+			}
+		}
+		q := txReq{vote: true, failed: true, include: []solana.PublicKey{best}}
+		q.start, q.end = allBlocks[0].Slot, allBlocks[len(allBlocks)-1].Slot
+		if q.end-q.start > 90 {
+			q.start = q.end - 90
+		}
+		reqs = append(reqs, q)
+		desc += fmt.Sprintf("[dense %d..%d inc=%s mentions=%d] ", q.start, q.end, best, len(ws[0].w.ByAddress[best]))
+		if len(ws[0].w.ByAddress[best]) > 100 {
+			x.Probe("account_with_over_100_matches")
+		}
 	}
 	x.Digest(desc)
 	x.Note("requests", desc)
